@@ -4,9 +4,15 @@
 //! commit) from generated documents, builds a naive model inverted index from the same generated
 //! token lists / typed values (`c07_util::model`), and reads everything back through
 //! `SegmentReader::inverted_index(field)` (`c07_util::verify`).
+//!
+//! Streams: `main` (plans small / boundary / big / heavy_tf / long_terms), `jsonlong`,
+//! `interleave` (documents whose values are not grouped by field), `collide` (distinct terms whose
+//! in-memory keys have the same 32-bit hash in the indexing-time term table) and `arena` (the
+//! term table alone, fed with such keys).
 #[path = "c07_util/mod.rs"]
 mod c07_util;
 
+use c07_util::collide::{self, Alphabet, Template};
 use c07_util::model::*;
 use c07_util::verify::*;
 use serde_json::json;
@@ -738,6 +744,527 @@ fn plan_long_terms(rng: &mut Rng) -> PlanResult {
 }
 
 // ------------------------------------------------------------------------------------------
+// documents whose values are not grouped by field
+
+/// number of values of one document: around the sizes at which sorting routines change strategy
+/// (insertion sort / small sorts / partitioning / run detection) and well beyond
+const VALUE_COUNTS: [usize; 26] = [
+    2, 3, 8, 16, 19, 20, 21, 22, 24, 31, 32, 33, 34, 40, 48, 50, 63, 64, 65, 80, 100, 128, 129, 200, 300, 600,
+];
+
+/// the order in which the values of one document are added: a sequence of field indices
+fn value_order(rng: &mut Rng, active: &[usize], total: usize) -> (Vec<usize>, &'static str) {
+    let k = active.len();
+    let mut sorted_active = active.to_vec();
+    sorted_active.sort_unstable();
+    // random split of `total` into one block per active field
+    let blocks = |rng: &mut Rng| -> Vec<usize> {
+        let mut cnt = vec![0usize; k];
+        let w: Vec<u32> = (0..k).map(|_| *rng.pick(&[1u32, 1, 2, 5])).collect();
+        for _ in 0..total {
+            cnt[rng.weighted(&w)] += 1;
+        }
+        cnt
+    };
+    let ascending = |rng: &mut Rng| -> Vec<usize> {
+        let cnt = blocks(rng);
+        let mut o = vec![];
+        for (i, &f) in sorted_active.iter().enumerate() {
+            o.extend(std::iter::repeat(f).take(cnt[i]));
+        }
+        o
+    };
+    match rng.below(8) {
+        0 | 1 => {
+            let w: Vec<u32> = (0..k).map(|_| *rng.pick(&[1u32, 1, 2, 5])).collect();
+            ((0..total).map(|_| active[rng.weighted(&w)]).collect(), "random")
+        }
+        2 => ((0..total).map(|i| active[i % k]).collect(), "round-robin"),
+        3 => {
+            let mut o = ascending(rng);
+            o.reverse();
+            (o, "descending-blocks")
+        }
+        4 => {
+            // everything in schema order, then a few late values of earlier fields
+            let mut o = ascending(rng);
+            let late = rng.urange(1, 3).min(o.len());
+            for _ in 0..late {
+                let f = sorted_active[rng.usize_below(k.max(2) - 1)];
+                o.push(f);
+            }
+            (o, "ascending-then-late-values")
+        }
+        5 => {
+            let mut o = ascending(rng);
+            for _ in 0..rng.urange(1, 4) {
+                if o.len() >= 2 {
+                    let (a, b) = (rng.usize_below(o.len()), rng.usize_below(o.len()));
+                    o.swap(a, b);
+                }
+            }
+            (o, "ascending-with-swaps")
+        }
+        6 => {
+            // two fields alternating, then a run of the others
+            let mut o: Vec<usize> = (0..total / 2).map(|i| active[i % 2]).collect();
+            while o.len() < total {
+                o.push(active[rng.usize_below(k)]);
+            }
+            (o, "alternating-then-random")
+        }
+        _ => (ascending(rng), "ascending"),
+    }
+}
+
+fn add_one_value(rng: &mut Rng, b: &mut SegBuilder, fi: usize, vocab: usize) {
+    let p = b.specs[fi].proto.clone();
+    match p.kind {
+        Kind::Text => {
+            if rng.chance(1, 10) {
+                let t = gen_pretok(rng, vocab);
+                b.pretok(fi, &t);
+            } else {
+                let t = gen_text(rng, p.tok, vocab);
+                b.text(fi, &t);
+            }
+        }
+        Kind::U64 => b.u64(fi, gen_u64(rng)),
+        Kind::I64 => b.i64(fi, gen_i64(rng)),
+        Kind::F64 => b.f64(fi, gen_f64(rng)),
+        Kind::Bool => b.bool(fi, rng.bool()),
+        Kind::Date => b.date(fi, gen_date(rng)),
+        Kind::Bytes => b.bytes(fi, &gen_bytes(rng)),
+        Kind::Ip => b.ip(fi, gen_ip(rng)),
+        Kind::Facet => b.facet(fi, &gen_facet(rng)),
+        Kind::Json => {
+            let j = gen_json(rng, p.tok, vocab, 2);
+            b.json(fi, &j);
+        }
+    }
+}
+
+/// Documents whose values arrive in an order that is NOT grouped by field (the indexer regroups
+/// them per field and has to keep the order of the values of each field, which decides the token
+/// positions of multi-valued fields): interleaved multi-valued fields, fields in reverse schema
+/// order, late values of an early field; 2 .. several hundred values per document.
+fn plan_interleaved(rng: &mut Rng, rep: &mut Report) -> PlanResult {
+    let nf = rng.urange(2, 6);
+    let popt = |rng: &mut Rng| {
+        if rng.chance(3, 4) {
+            IndexRecordOption::WithFreqsAndPositions
+        } else {
+            ropt(rng)
+        }
+    };
+    let mut protos = vec![];
+    for _ in 0..nf {
+        protos.push(match rng.below(10) {
+            0..=4 => Proto::text(rtok(rng), popt(rng), rng.bool()),
+            5 | 6 => Proto::json(*rng.pick(&[Tok::Default, Tok::White]), popt(rng), rng.bool()),
+            7 => Proto::simple(Kind::U64, rng.bool()),
+            8 => Proto::simple(Kind::Facet, false),
+            _ => Proto::simple(Kind::Bytes, rng.bool()),
+        });
+    }
+    let k = rng.usize_below(nf);
+    protos[k] = Proto::text(
+        *rng.pick(&[Tok::Default, Tok::White]),
+        IndexRecordOption::WithFreqsAndPositions,
+        rng.bool(),
+    );
+    let vocab = *rng.pick(&[3usize, 30, 30, 1000]);
+    let mut b = SegBuilder::create(protos, budget(rng))?;
+    let ndocs = rng.urange(1, 6);
+    for _ in 0..ndocs {
+        let total = if rng.chance(2, 3) { *rng.pick(&VALUE_COUNTS) } else { rng.urange(1, 400) };
+        let mut active: Vec<usize> = (0..nf).collect();
+        rng.shuffle(&mut active);
+        active.truncate(rng.urange(2, nf));
+        let (order, pattern) = value_order(rng, &active, total);
+        let grouped = order.windows(2).all(|w| w[0] <= w[1]);
+        let mut per_field = vec![0usize; nf];
+        for &fi in &order {
+            per_field[fi] += 1;
+            add_one_value(rng, &mut b, fi, vocab);
+        }
+        b.finish_doc()?;
+        rep.observe("doc_value_order", pattern);
+        rep.observe(
+            "doc_values_class",
+            format!(
+                "{}:{}",
+                match order.len() {
+                    0..=20 => "<=20",
+                    21..=32 => "21..32",
+                    33..=64 => "33..64",
+                    65..=128 => "65..128",
+                    _ => ">128",
+                },
+                if grouped { "grouped-by-field" } else { "not-grouped" }
+            ),
+        );
+        if !grouped {
+            rep.count("docs_with_values_not_grouped_by_field", 1);
+            let multi = (0..nf)
+                .filter(|&f| per_field[f] >= 2 && b.specs[f].proto.opt == IndexRecordOption::WithFreqsAndPositions)
+                .count();
+            rep.count("multi_valued_position_fields_in_ungrouped_docs", multi as u64);
+        }
+    }
+    Ok((b.finish()?, vec![]))
+}
+
+// ------------------------------------------------------------------------------------------
+// distinct terms with equal hash in the indexing-time term table
+
+/// where the bytes in which two keys of equal length differ lie, relative to a comparison done in
+/// 16-byte chunks plus one overlapping chunk at the end
+fn diff_class(a: &[u8], b: &[u8]) -> String {
+    let len = a.len();
+    let d0 = (0..len).find(|&i| a[i] != b[i]).unwrap_or(0);
+    let d1 = (0..len).rfind(|&i| a[i] != b[i]).unwrap_or(0);
+    if len <= 16 {
+        return format!("len{}:{}", if len < 8 { "<8" } else { "8..16" }, if d1 < len / 2 { "first-half" } else if d0 >= len / 2 { "second-half" } else { "both-halves" });
+    }
+    let (q, r) = (len / 16, len % 16);
+    let place = if d0 >= 16 * q {
+        "tail".to_string()
+    } else if d1 < 16 * q && d0 / 16 == d1 / 16 {
+        let c = d0 / 16;
+        if c == q - 1 && r > 0 {
+            if d1 < len - 16 {
+                "last-full-chunk:before-the-end-chunk".into()
+            } else if d0 >= len - 16 {
+                "last-full-chunk:inside-the-end-chunk".into()
+            } else {
+                "last-full-chunk:both".into()
+            }
+        } else if c == 0 {
+            "first-chunk".into()
+        } else if c == q - 1 {
+            "last-chunk".into()
+        } else {
+            "middle-chunk".into()
+        }
+    } else {
+        "spanning-chunks".into()
+    };
+    format!("len>16,{}:{place}", if r == 0 { "k*16" } else { "k*16+r" })
+}
+
+struct CollideField {
+    /// value bytes (text token / bytes value / 8 big-endian value bytes); for JSON the path index
+    terms: Vec<(usize, Vec<u8>)>,
+}
+
+const JSON_PATHS: [&str; 2] = ["k", "m"];
+
+/// Distinct terms of one field (sometimes of two fields) whose in-memory keys - field id, for JSON
+/// also path id and type code, then the value bytes - have the same length and the same 32-bit
+/// hash, and differ only in a chosen window. Random terms practically never collide, so this is
+/// the only way the term table's key comparison ever sees two different keys.
+fn plan_collide(rng: &mut Rng, rep: &mut Report) -> PlanResult {
+    let nf = rng.urange(1, 3);
+    let mut protos = vec![];
+    let mut have_json = false;
+    for _ in 0..nf {
+        let p = match rng.below(11) {
+            0..=4 => Proto::text(*rng.pick(&[Tok::White, Tok::White, Tok::Raw, Tok::Default]), ropt(rng), rng.bool()),
+            5 | 6 => Proto::simple(Kind::Bytes, rng.bool()),
+            7 => Proto::simple(Kind::U64, rng.bool()),
+            8 => Proto::simple(Kind::I64, rng.bool()),
+            _ if !have_json => {
+                have_json = true;
+                Proto::json(*rng.pick(&[Tok::White, Tok::White, Tok::Raw, Tok::Default]), ropt(rng), rng.bool())
+            }
+            _ => Proto::text(Tok::White, ropt(rng), rng.bool()),
+        };
+        protos.push(p);
+    }
+    let mut b = SegBuilder::create(protos, budget(rng))?;
+    let npaths = rng.urange(1, 2);
+    let mut cf: Vec<CollideField> = (0..nf).map(|_| CollideField { terms: vec![] }).collect();
+    let mut planted: Planted = vec![];
+    let mut npairs = 0u64;
+    // text-like fields that may share one search (same alphabet, same key layout)
+    let whites: Vec<usize> =
+        (0..nf).filter(|&f| b.specs[f].proto.kind == Kind::Text && b.specs[f].proto.tok != Tok::Default).collect();
+    for fi in 0..nf {
+        let p = b.specs[fi].proto.clone();
+        let fid = b.specs[fi].field.field_id().to_be_bytes().to_vec();
+        let nsearch = rng.urange(1, 3);
+        for _ in 0..nsearch {
+            let path = rng.usize_below(npaths);
+            let (mut heads, alphabet, min_len, max_len): (Vec<Vec<u8>>, Alphabet, usize, usize) = match p.kind {
+                Kind::Text => (vec![fid.clone()], Alphabet::LowerAlnum, 4 + 4, if p.tok == Tok::Default { 4 + 39 } else { 5000 }),
+                Kind::Bytes => (vec![fid.clone()], Alphabet::Bytes, 4 + 3, 5000),
+                Kind::U64 | Kind::I64 => (vec![fid.clone()], Alphabet::Bytes, 12, 12),
+                _ => {
+                    // JSON text term: field id, path id (paths are numbered in the order in which
+                    // the segment meets them: document 0 registers them), type code
+                    let mut h = fid.clone();
+                    h.extend_from_slice(&(path as u32).to_be_bytes());
+                    h.push(b's');
+                    (vec![h], Alphabet::LowerAlnum, 9 + 4, if p.tok == Tok::Default { 9 + 39 } else { 5000 })
+                }
+            };
+            let cross = p.kind == Kind::Text && p.tok != Tok::Default && whites.len() >= 2 && rng.chance(1, 5);
+            if cross {
+                heads = whites.iter().map(|&f| b.specs[f].field.field_id().to_be_bytes().to_vec()).collect();
+            }
+            let vstart = heads[0].len();
+            let len = collide::pick_key_len(rng, min_len, max_len);
+            let min_w = if alphabet == Alphabet::Bytes { 3 } else { 4 };
+            let mut pairs = vec![];
+            let mut wclass = "";
+            for _attempt in 0..6 {
+                let Some(win) = collide::pick_window(rng, len, vstart, min_w) else { break };
+                if !collide::can_collide(&win.holes, heads.len()) {
+                    continue;
+                }
+                let mut key = vec![0u8; len];
+                let fill = *rng.pick(b"abz09");
+                for (i, x) in key.iter_mut().enumerate().skip(vstart) {
+                    *x = match alphabet {
+                        Alphabet::Bytes => rng.next_u64() as u8,
+                        // random shared prefix / suffix, or long runs of one letter
+                        Alphabet::LowerAlnum => {
+                            if i % 2 == 0 || rng.bool() {
+                                fill
+                            } else {
+                                b'a' + rng.below(26) as u8
+                            }
+                        }
+                    };
+                }
+                let tpl = Template { heads: heads.clone(), key, holes: win.holes, alphabet };
+                let want = rng.urange(1, 3);
+                pairs = collide::find_pairs(rng, &tpl, want, 400_000);
+                wclass = win.class;
+                if !pairs.is_empty() {
+                    break;
+                }
+                rep.count("collision_searches_without_result", 1);
+            }
+            for (ka, kb) in pairs {
+                npairs += 1;
+                rep.observe("collide_field", format!("{}:{}", p.kind.name(), if cross { "two-fields" } else { "one-field" }));
+                rep.observe("collide_window", wclass);
+                rep.observe("collide_diff_place", diff_class(&ka, &kb));
+                rep.observe("collide_key_len_mod_16", format!("{:02}", ka.len() % 16));
+                rep.nontrivial(format!("collide|{}|{}|{}", p.kind.name(), wclass, diff_class(&ka, &kb)));
+                for k in [ka, kb] {
+                    // which field does the key belong to (cross-field searches)
+                    let f = if cross {
+                        whites.iter().copied().find(|&f| b.specs[f].field.field_id().to_be_bytes() == k[..4]).unwrap_or(fi)
+                    } else {
+                        fi
+                    };
+                    let val = k[vstart..].to_vec();
+                    let dict_key = if p.kind == Kind::Json {
+                        let mut d = JSON_PATHS[path].as_bytes().to_vec();
+                        d.extend_from_slice(b"\0s");
+                        d.extend_from_slice(&val);
+                        d
+                    } else {
+                        val.clone()
+                    };
+                    planted.push((f, dict_key));
+                    cf[f].terms.push((path, val));
+                }
+            }
+        }
+    }
+    rep.count("colliding_term_pairs_planted", npairs);
+    let n = match rng.below(12) {
+        0 => rng.urange(129, 300),
+        1..=4 => rng.urange(1, 4),
+        _ => rng.urange(2, 40),
+    };
+    let nfill = *rng.pick(&[1usize, 10, 300, 3000]);
+    let as_str = |v: &[u8]| String::from_utf8_lossy(v).into_owned();
+    for d in 0..n {
+        for fi in 0..nf {
+            let p = b.specs[fi].proto.clone();
+            if p.kind == Kind::Json && d == 0 {
+                // registers the paths in a known order
+                let kv = (0..npaths).map(|i| (JSON_PATHS[i].to_string(), J::Str("seed".into()))).collect();
+                b.json(fi, &J::Obj(kv));
+            }
+            if !rng.chance(4, 5) {
+                continue;
+            }
+            let terms = &cf[fi].terms;
+            let pick_term = |rng: &mut Rng, path: Option<usize>| -> Option<Vec<u8>> {
+                if terms.is_empty() || !rng.chance(3, 5) {
+                    return None;
+                }
+                let (pa, t) = rng.pick(terms);
+                if path.is_some_and(|x| x != *pa) {
+                    return None;
+                }
+                Some(t.clone())
+            };
+            let text_value = |rng: &mut Rng, path: Option<usize>| -> String {
+                if p.tok == Tok::Raw {
+                    return match pick_term(rng, path) {
+                        Some(t) => as_str(&t),
+                        None => gen_text(rng, Tok::Raw, nfill),
+                    };
+                }
+                let ntok = *rng.pick(&[0usize, 1, 1, 2, 3, 6]);
+                (0..ntok)
+                    .map(|_| match pick_term(rng, path) {
+                        Some(t) => as_str(&t),
+                        None => gen_word(rng, p.tok, nfill),
+                    })
+                    .collect::<Vec<_>>()
+                    .join(" ")
+            };
+            for _ in 0..*rng.pick(&[1usize, 1, 2, 3]) {
+                match p.kind {
+                    Kind::Text => {
+                        let t = text_value(rng, None);
+                        b.text(fi, &t);
+                    }
+                    Kind::Bytes => match pick_term(rng, None) {
+                        Some(t) => b.bytes(fi, &t),
+                        None => b.bytes(fi, &gen_bytes(rng)),
+                    },
+                    Kind::U64 | Kind::I64 => {
+                        let u = match pick_term(rng, None) {
+                            Some(t) => u64::from_be_bytes(t[..8].try_into().unwrap_or([0; 8])),
+                            None => gen_u64(rng),
+                        };
+                        if p.kind == Kind::U64 {
+                            b.u64(fi, u);
+                        } else {
+                            b.i64(fi, (u ^ (1u64 << 63)) as i64);
+                        }
+                    }
+                    _ => {
+                        let mut kv = vec![];
+                        for (i, name) in JSON_PATHS.iter().enumerate().take(npaths) {
+                            if rng.chance(2, 3) {
+                                kv.push((name.to_string(), J::Str(text_value(rng, Some(i)))));
+                            }
+                        }
+                        if rng.chance(1, 4) {
+                            kv.push((JSON_PATHS[0].to_string(), J::I(rng.irange(0, 3))));
+                        }
+                        b.json(fi, &J::Obj(kv));
+                    }
+                }
+            }
+        }
+        b.finish_doc()?;
+    }
+    Ok((b.finish()?, planted))
+}
+
+/// The term table of the indexer alone (`tantivy_stacker::ArenaHashMap`), fed with keys of equal
+/// hash next to random ones, against a BTreeMap: every distinct key exactly once, with the value
+/// of its own updates.
+fn arena_case(_case: u64, rng: &mut Rng, rep: &mut Report) {
+    use std::collections::BTreeMap;
+    use tantivy_stacker::ArenaHashMap;
+    let mut pool: Vec<Vec<u8>> = vec![];
+    let mut siblings: Vec<Vec<u8>> = vec![];
+    for _ in 0..rng.urange(1, 4) {
+        let alphabet = if rng.bool() { Alphabet::Bytes } else { Alphabet::LowerAlnum };
+        let min_w = if alphabet == Alphabet::Bytes { 3 } else { 4 };
+        let len = collide::pick_key_len(rng, min_w + 2, 5000);
+        let Some(win) = collide::pick_window(rng, len, 0, min_w) else { continue };
+        if !collide::can_collide(&win.holes, 1) {
+            continue;
+        }
+        let key: Vec<u8> = match alphabet {
+            Alphabet::Bytes => rng.bytes(len),
+            Alphabet::LowerAlnum => (0..len).map(|_| b'a' + rng.below(26) as u8).collect(),
+        };
+        let tpl = Template { heads: vec![], key, holes: win.holes, alphabet };
+        let want = rng.urange(1, 3);
+        for (a, bb) in collide::find_pairs(rng, &tpl, want, 400_000) {
+            rep.observe("collide_diff_place", diff_class(&a, &bb));
+            rep.observe("collide_window", win.class);
+            rep.count("colliding_key_pairs_in_term_table", 1);
+            rep.nontrivial(format!("arena|{}|{}", win.class, diff_class(&a, &bb)));
+            // sometimes only one key of the pair is inserted: the other one must stay absent
+            if rng.chance(1, 4) {
+                siblings.push(bb);
+            } else {
+                pool.push(bb);
+            }
+            pool.push(a);
+        }
+    }
+    for _ in 0..*rng.pick(&[0usize, 10, 500, 5000]) {
+        let n = rng.urange(0, 40);
+        pool.push(rng.bytes(n));
+    }
+    if pool.is_empty() {
+        return;
+    }
+    let mut map = ArenaHashMap::with_capacity(*rng.pick(&[1usize, 4, 1024, 1 << 16]));
+    let mut model: BTreeMap<Vec<u8>, u64> = BTreeMap::new();
+    let nops = pool.len() * rng.urange(1, 3) + rng.urange(0, 20);
+    rep.eval();
+    for seq in 0..nops as u64 {
+        let key = rng.pick(&pool).clone();
+        let want_old = model.get(&key).copied();
+        let mut got_old: Option<Option<u64>> = None;
+        map.mutate_or_create(&key, |old: Option<u64>| {
+            got_old = Some(old);
+            match old {
+                None => seq << 20,
+                Some(v) => v + 1,
+            }
+        });
+        if got_old != Some(want_old) {
+            rep.violation(
+                "term-table:mutate_or_create-passed-the-value-of-another-key",
+                json!({"key": show(&key), "got_previous": format!("{got_old:?}"), "expected_previous": format!("{want_old:?}"), "distinct_keys_so_far": model.len()}),
+            );
+            return;
+        }
+        model.insert(key, match want_old {
+            None => seq << 20,
+            Some(v) => v + 1,
+        });
+    }
+    if map.len() != model.len() {
+        rep.violation("term-table:len", json!({"got": map.len(), "expected": model.len()}));
+        return;
+    }
+    let mut got: Vec<(Vec<u8>, u64)> = map.iter().map(|(k, addr)| (k.to_vec(), map.read::<u64>(addr))).collect();
+    got.sort();
+    let want: Vec<(Vec<u8>, u64)> = model.iter().map(|(k, v)| (k.clone(), *v)).collect();
+    if got != want {
+        let at = got.iter().zip(want.iter()).position(|(a, b)| a != b).unwrap_or(got.len().min(want.len()));
+        rep.violation(
+            "term-table:iter",
+            json!({"first_diff_at": at, "got": got.get(at).map(|(k, v)| (show(k), *v)), "expected": want.get(at).map(|(k, v)| (show(k), *v))}),
+        );
+        return;
+    }
+    for (k, v) in &model {
+        if map.get::<u64>(k) != Some(*v) {
+            rep.violation("term-table:get", json!({"key": show(k), "got": format!("{:?}", map.get::<u64>(k)), "expected": v}));
+            return;
+        }
+    }
+    for k in &siblings {
+        if !model.contains_key(k) && map.get::<u64>(k).is_some() {
+            rep.violation("term-table:get-finds-a-key-never-inserted", json!({"key": show(k)}));
+            return;
+        }
+    }
+    rep.count("term_table_keys_compared", model.len() as u64);
+    rep.observe("plan", "arena");
+}
+
+// ------------------------------------------------------------------------------------------
 // case drivers
 
 fn run_plan(case: u64, rng: &mut Rng, rep: &mut Report, plan: &str, thorough: bool) {
@@ -746,6 +1273,8 @@ fn run_plan(case: u64, rng: &mut Rng, rep: &mut Report, plan: &str, thorough: bo
         "boundary" => plan_boundary(rng),
         "big" => plan_big(rng, thorough),
         "heavy_tf" => plan_heavy_tf(rng),
+        "interleave" => plan_interleaved(rng, rep),
+        "collide" => plan_collide(rng, rep),
         _ => plan_long_terms(rng),
     };
     let (built, planted) = match res {
@@ -887,8 +1416,18 @@ fn main() {
     let thorough = !ctx.quick();
     let n_main = ctx.scale(240, 5600) as u64;
     let n_long = ctx.scale(8, 64) as u64;
+    if !collide::self_test() {
+        harness_fatal("c07: the generator's murmurhash2 does not reproduce the reference vectors");
+    }
     let mut rep = run_cases(&ctx, "main", n_main, main_case(thorough));
     rep.merge(run_cases(&ctx, "jsonlong", n_long, jsonlong_case));
+    rep.merge(run_cases(&ctx, "interleave", ctx.scale(200, 4000) as u64, |case, rng, rep| {
+        run_plan(case, rng, rep, "interleave", thorough)
+    }));
+    rep.merge(run_cases(&ctx, "collide", ctx.scale(200, 4000) as u64, |case, rng, rep| {
+        run_plan(case, rng, rep, "collide", thorough)
+    }));
+    rep.merge(run_cases(&ctx, "arena", ctx.scale(100, 2000) as u64, arena_case));
     simple_finish(
         &ctx,
         rep,
